@@ -326,8 +326,50 @@ fn run_failure_case(ep: &LiveEndpoint, origin_l: &TcpListener, who: char, busy: 
     }
 }
 
+/// the operations every HTTP/3 codec performed on its stream table during the run (recorded by the door), replayed by
+/// the Lean model `TT.H3Streams`, one codec (connection) at a time
+fn replay_stream_tables(ctx: &mut Ctx) {
+    let log: Vec<String> = trusttunnel::verif::hooks::STATE.lock().unwrap().h3_stream_ops.clone();
+    let mut by_codec: Vec<(String, Vec<(String, String)>)> = vec![];
+    for l in &log {
+        // "<codec> <op words...> => [table]"
+        let Some((lhs, table)) = l.split_once(" => [") else { continue };
+        let table = table.trim_end_matches(']');
+        let mut w = lhs.split(' ');
+        let codec = w.next().unwrap_or("").to_string();
+        let op = w.collect::<Vec<_>>().join(".");
+        let state = if table.is_empty() { "-".to_string() } else { table.to_string() };
+        match by_codec.iter_mut().find(|(c, _)| *c == codec) {
+            Some(e) => e.1.push((op, state)),
+            None => by_codec.push((codec, vec![(op, state)])),
+        }
+    }
+    ctx.stat_add("h3_stream_table_codecs", by_codec.len() as u64);
+    ctx.stat_add("h3_stream_table_operations", log.len() as u64);
+    for k in ["req", "fin", "close", "sd", "err"] {
+        ctx.stat_add(&format!("h3_stream_op_{}", k), by_codec.iter().map(|(_, v)| v.iter().filter(|(o, _)| o.starts_with(k)).count() as u64).sum());
+    }
+    for (_, ops) in by_codec {
+        let mut init = "-".to_string();
+        for chunk in ops.chunks(80) {
+            ctx.emit(
+                &format!("c02 h3streams {} {}", init, chunk.iter().map(|(o, _)| o.as_str()).collect::<Vec<_>>().join(";")),
+                &chunk.iter().map(|(_, s)| s.as_str()).collect::<Vec<_>>().join(" | "),
+            );
+            init = chunk[chunk.len() - 1].1.clone();
+            // an entry with both directions shut down must have been removed
+            for (o, st) in chunk {
+                if st.split(',').any(|e| e.ends_with(":11")) {
+                    ctx.oracle_failure("stream_table", &format!("after {} the stream table holds a stream whose two directions are shut down: [{}]", o, st));
+                }
+            }
+        }
+    }
+}
+
 pub fn run(ctx: &mut Ctx) {
     quiet_panics();
+    trusttunnel::verif::hooks::reset();
     let Some(ep) = LiveEndpoint::start(make_core) else {
         ctx.notes.push("c02h3: the endpoint's listener did not come up on loopback; nothing was run".to_string());
         return;
@@ -390,4 +432,33 @@ pub fn run(ctx: &mut Ctx) {
             Err(m) => ctx.oracle_failure("panic", &format!("{}: panicked ({})", desc, m)),
         }
     }
+    // a few multi-stream sessions: concurrent requests ended in every way on one connection
+    for k in 0..3 {
+        if let Ok(mut cl) = H3Client::connect(ep.addr, Some("localhost"), &[b"h3"], 1 << 20, Duration::from_secs(3)) {
+            let target = origin_l.local_addr().unwrap().to_string();
+            let a = cl.request("CONNECT", None, "_check", None, &[], k % 2 == 0);
+            let b = cl.request("CONNECT", None, &target, None, &[], false);
+            let c = cl.request("CONNECT", None, "127.0.0.1:1", None, &[], false);
+            let d = cl.request("GET", Some("http"), "127.0.0.1:1", Some("/"), &[], true);
+            cl.wait(Duration::from_millis(600), |x| [a, b, c, d].iter().flatten().all(|i| x.streams.get(i).map(|s| s.status.is_some() || s.reset.is_some()).unwrap_or(false)));
+            if let Some(b) = b {
+                let _ = cl.send_body(b, b"some bytes", false);
+                match k {
+                    0 => {
+                        let _ = cl.finish(b);
+                    }
+                    1 => cl.reset_stream(b, 0x10c),
+                    _ => {}
+                }
+            }
+            if let Ok((s, _)) = origin_l.accept() {
+                drop(s);
+            }
+            cl.wait(Duration::from_millis(300), |_| false);
+            cl.close();
+            cl.wait(Duration::from_millis(30), |_| false);
+        }
+    }
+    std::thread::sleep(Duration::from_millis(100));
+    replay_stream_tables(ctx);
 }
